@@ -28,11 +28,40 @@ type Asm struct {
 // TODO: Conceal from outside use
 type Arg struct {
 	Sym      *string `(@Sym Whitespace?)?`
-	Size     *uint32 `(@Size Whitespace?)?`
+	Size     *Num    `(@Size Whitespace?)?`
 	Flag     *uint8  `(@Size Whitespace?)?`
 	Selector *string `(@Sym Whitespace?)?`
 	Desc     *string `(@Sym Whitespace?)?`
 	//Desc *string `(Quote ((@Sym | @Size) @Whitespace?)+ Quote Whitespace?)?`
+}
+
+// Num is an argument that starts with a digit.
+//
+// Raw keeps the argument exactly as it was written, so that a selector
+// like 00, 007 or 1a is emitted verbatim. Where a number is required
+// (size, signal), Value reports an error if Raw is not a 32 bit decimal.
+type Num struct {
+	Raw string
+}
+
+// Capture implements participle.Capture.
+func (n *Num) Capture(values []string) error {
+	n.Raw = strings.Join(values, "")
+	return nil
+}
+
+// Value returns the numeric value of the argument.
+func (n *Num) Value() (uint32, error) {
+	v, err := strconv.ParseUint(n.Raw, 10, 32)
+	if err != nil {
+		return 0, fmt.Errorf("invalid number '%s'", n.Raw)
+	}
+	return uint32(v), nil
+}
+
+// String implements the String interface.
+func (n Num) String() string {
+	return n.Raw
 }
 
 // writes the parsed instruction bytes to output.
@@ -49,7 +78,7 @@ func parseTwoSym(b *bytes.Buffer, arg Arg) (int, error) {
 	var selector string
 	var sym string
 	if arg.Size != nil {
-		selector = strconv.FormatUint(uint64(*arg.Size), 10)
+		selector = arg.Size.Raw
 		//sym = *arg.Selector
 		sym = *arg.Sym
 	} else if arg.Selector != nil {
@@ -105,7 +134,11 @@ func parseSig(b *bytes.Buffer, arg Arg) (int, error) {
 		return rn, err
 	}
 
-	n, err = writeSize(b, *arg.Size)
+	v, err := arg.Size.Value()
+	if err != nil {
+		return rn, err
+	}
+	n, err = writeSize(b, v)
 	rn += n
 	if err != nil {
 		return rn, err
@@ -129,7 +162,11 @@ func parseSized(b *bytes.Buffer, arg Arg) (int, error) {
 		return rn, err
 	}
 
-	n, err = writeSize(b, *arg.Size)
+	v, err := arg.Size.Value()
+	if err != nil {
+		return rn, err
+	}
+	n, err = writeSize(b, v)
 	rn += n
 	if err != nil {
 		return rn, err
@@ -141,7 +178,11 @@ func parseSized(b *bytes.Buffer, arg Arg) (int, error) {
 func parseFlagged(b *bytes.Buffer, arg Arg) (int, error) {
 	var rn int
 
-	n, err := writeSize(b, *arg.Size)
+	v, err := arg.Size.Value()
+	if err != nil {
+		return rn, err
+	}
+	n, err := writeSize(b, v)
 	rn += n
 	if err != nil {
 		return rn, err
@@ -274,7 +315,7 @@ var (
 	asmLexer = lexer.MustSimple([]lexer.SimpleRule{
 		{"Comment", `(?:#)[^\n]*`},
 		{"Ident", `^[A-Z]+`},
-		{"Size", `[0-9]+`},
+		{"Size", `[0-9][a-zA-Z0-9]*`},
 		{"Sym", `[a-zA-Z_\*\.\^\<\>][a-zA-Z0-9_]*`},
 		{"Whitespace", `[ \t]+`},
 		{"EOL", `[\n\r]+`},
@@ -360,7 +401,7 @@ func (bt *Batcher) MenuAdd(w io.Writer, code string, arg Arg) (int, error) {
 		if arg.Sym != nil {
 			sym = *arg.Sym
 		}
-		selector = strconv.FormatUint(uint64(*arg.Size), 10)
+		selector = arg.Size.Raw
 		display = *arg.Selector
 	} else {
 		selector = *arg.Sym
